@@ -36,6 +36,7 @@ from fsa.match import Unknown
 from rules.solver_common import (
     position_cmp,
     SolverShape,
+    offset_source_index,
     check_convergence,
     expr,
     guard_atoms,
@@ -100,7 +101,7 @@ def r2_offset(R, sh: SolverShape) -> None:
         text(cp.index) == 't'
         and isinstance(cp.value, ast.Subscript)
         and text(cp.value.value) == text(ast.parse(text(cp.node.ast.targets[0])).body[0].value.value)
-        and affine(cp.value.slice) == affine(expr('t + offset'))
+        and offset_source_index(sh, cp.node.id, cp.value.slice)
         and not cp.aug
     )
     R.check(
@@ -252,16 +253,21 @@ def r4_min_iter_gate(R, sh: SolverShape) -> None:
                     where=sh.where(gate))
         return
     R.ok(sh.q, f'min_iter gate is `{sh.counter} < min_iter` (strict)', detail=text(gate.ast))
-    g = sh.guards_of(conv.id)
-    R.check((gate.id, ok_edge) in g, sh.q, 'min-iter-gate-dominates',
+    # on every path to the convergence test the pass counter is known not to be below min_iter (facts of the dominating
+    # tests, with unit propagation through a compound gate such as `i < min_iter and <values finite>`)
+    from fsa.match import entails
+    facts = guard_atoms(sh, conv.id)
+    known = entails(facts, expr(f'{sh.counter} < min_iter'), False)
+    R.check(known, sh.q, 'min-iter-gate-dominates',
             'convergence test is reachable only when iteration >= min_iter',
             'the convergence test can be reached on a pass below min_iter (the gate does not guard it)',
             where=sh.where(conv), path=sh.path_to(conv))
-    # the below edge leads back to the header without passing the convergence test
-    tgt = [b for (b, lab) in gate.succ if lab == below_edge]
-    fine = all(must_pass(sh.cfg, b, conv.id, [sh.loop.id]) for b in tgt)
-    R.check(fine, sh.q, 'min-iter-gate-continue', 'below min_iter the pass is not judged',
-            'the below-min_iter branch reaches the convergence test within the same pass', where=sh.where(gate))
+    if not isinstance(gate.ast, ast.BoolOp):
+        # the below edge leads back to the header without passing the convergence test
+        tgt = [b for (b, lab) in gate.succ if lab == below_edge]
+        fine = all(must_pass(sh.cfg, b, conv.id, [sh.loop.id]) for b in tgt)
+        R.check(fine, sh.q, 'min-iter-gate-continue', 'below min_iter the pass is not judged',
+                'the below-min_iter branch reaches the convergence test within the same pass', where=sh.where(gate))
 
 
 def r5_convergence(R, sh: SolverShape) -> None:
